@@ -131,6 +131,20 @@ fn resolve_case_at(out: &mut Out, root: &str, entry_dir: &str, files: &[&str], i
     out.case(&format!("c14 resolve {} {entry_dir} {entry_dir} {e}", fs_enc_at(entry_dir, files)), &format!("cli={cli} shared={shared}"));
 }
 
+/// Two imports in one entry file: what one import resolves to must not depend on the import written before it
+/// (the files loaded for the pair are the union of what each import loads on its own).
+fn resolve_pair_case_at(out: &mut Out, root: &str, entry_dir: &str, files: &[&str], first: &str, second: &str) {
+    let (Some(i1), Some(i2)) = (parse_import(first), parse_import(second)) else { return };
+    let (Some(e1), Some(e2)) = (enc_import(&i1), enc_import(&i2)) else { return };
+    write_layout_at(root, entry_dir, files, &format!("{first}\n{second}"), None);
+    let cli = match catch(|| cli_loaded_at(root, entry_dir, files)) {
+        Ok(Ok(v)) => if v.is_empty() { "none".to_string() } else { v.join(",") },
+        Ok(Err(e)) => e,
+        Err(m) => format!("panic {m}"),
+    };
+    out.case(&format!("c14 resolve2 {} {entry_dir} {e1} {e2}", fs_enc_at(entry_dir, files)), &format!("cli={cli}"));
+}
+
 /// Visibility with the module's real export computation: a module `m` with the given declarations, and
 /// one importing entry per (spelling, name).
 fn vis_cases(out: &mut Out, root: &str, decls: &[(&str, String, bool, Vec<String>)], extra_names: &[&str]) {
@@ -165,6 +179,37 @@ fn vis_cases_at(out: &mut Out, root: &str, modpath: &str, decls: &[(&str, String
         names.extend(vs.iter().cloned());
     }
     names.extend(extra_names.iter().map(|s| s.to_string()));
+    // bare use: the importer names some *other* pub item in its import and then uses this declaration by its bare
+    // name — known exactly when the module exports it (a private declaration must stay unknown)
+    for (kind, name, _is_pub, variants) in decls {
+        let Some(other) = decls.iter().find(|d| d.2 && d.1 != *name) else { continue };
+        let usage = match *kind {
+            "fn" => format!("{name}()"),
+            "const" => name.to_string(),
+            "model" | "class" => format!("{name}(a=1)"),
+            "enum" => match variants.first() { Some(v) => format!("{name}.{v}"), None => continue },
+            "newtype" => format!("{name}(1)"),
+            _ => continue,
+        };
+        let _ = std::fs::remove_dir_all(root);
+        let file = format!("{root}/{}.incn", modpath.replace('.', "/"));
+        std::fs::create_dir_all(std::path::Path::new(&file).parent().expect("parent")).expect("mkdir");
+        std::fs::write(&file, &src).expect("w");
+        std::fs::write(format!("{root}/main.incn"), format!("from {modpath} import {}\n\ndef main() -> None:\n    zz_v = {usage}\n", other.1)).expect("w");
+        let entry = format!("{root}/main.incn");
+        let res = catch(|| -> Result<String, String> {
+            let modules = incan::cli::commands::collect_modules(&entry).map_err(|e| format!("collect-error:{}", e.message.lines().next().unwrap_or("")))?;
+            let main = modules.last().ok_or("no modules")?;
+            let deps: Vec<(&str, &incan_syntax::ast::Program)> = modules[..modules.len() - 1].iter().map(|m| (m.name.as_str(), &m.ast)).collect();
+            let mut tc = incan::frontend::typechecker::TypeChecker::new();
+            match tc.check_with_imports(&main.ast, &deps) {
+                Ok(()) => Ok("accept".to_string()),
+                Err(errs) => Ok(if errs.iter().any(|e| e.message.contains("Unknown symbol")) { "reject".to_string() } else { format!("other-error:{}", errs[0].message.replace(' ', "_")) }),
+            }
+        });
+        let real = match res { Ok(Ok(s)) => s, Ok(Err(e)) => e, Err(m) => format!("panic {m}") };
+        out.case(&format!("c14 vis {enc} bare {name} {modpath}"), &real);
+    }
     // aliases: a pub name of the module other than the imported one (the alias must not stand in for the
     // imported name in the visibility question), and a name the module does not have at all
     let pub_names: Vec<String> = decls.iter().filter(|d| d.2).map(|d| d.1.clone()).collect();
@@ -323,6 +368,16 @@ pub fn run(out: &mut Out, tier: &str, seed: u64, scratch: &str) {
     }
     for i in deep_imports {
         resolve_case_at(out, &root, "p/q/r", &["a.incn", "p/a.incn", "p/q/a.incn", "p/q/r/a.incn"], i);
+    }
+    // pairs of imports in one file (a parent-relative or crate-rooted import followed by a plain one and vice versa)
+    let pair_layout = ["a.incn", "b.incn", "p/a.incn", "p/b.incn", "p/q/a.incn", "p/q/b.incn", "p/src/", "p/src/b.incn"];
+    let firsts = ["from a import x", "from super::a import x", "from super::super::a import x", "from ..a import x", "from crate.a import x", "import super::a"];
+    let seconds = ["from b import x", "from super::b import x", "from ..b import x", "import b"];
+    for f1 in firsts {
+        for f2 in seconds {
+            resolve_pair_case_at(out, &root, "p/q", &pair_layout, f1, f2);
+            resolve_pair_case_at(out, &root, "p/q", &pair_layout, f2, f1);
+        }
     }
     // random layouts × imports
     let n_rand = if tier == "thorough" { 600 } else { 80 };
